@@ -8,7 +8,7 @@ from ..encoding import Relocation
 from ..generic_instructions import ArtificialInstruction, RegisterUseDef
 from ..generic_instructions import Global
 from .registers import AddressRegister, FloatRegister, a1, a2, a3, a15
-from ...utils.bitfun import wrap_negative
+from ...utils.bitfun import wrap_signed
 
 
 core_isa = Isa()
@@ -332,8 +332,8 @@ class Imm8Relocation(Relocation):
     def calc(self, sym_value, reloc_value):
         offset = sym_value - reloc_value - 4
         assert offset in range(-128, 127), str(offset)
-        # TODO: this wrap_negative is somewhat weird
-        return wrap_negative(offset, 8)
+        # TODO: this wrap_signed is somewhat weird
+        return wrap_signed(offset, 8)
 
 
 @core_isa.register_relocation
@@ -346,8 +346,8 @@ class Imm12Relocation(Relocation):
     def calc(self, sym_value, reloc_value):
         offset = sym_value - reloc_value - 4
         assert offset in range(-2096, 2095), str(offset)
-        # TODO: this wrap_negative is somewhat weird
-        return wrap_negative(offset, 12)
+        # TODO: this wrap_signed is somewhat weird
+        return wrap_signed(offset, 12)
 
 
 @core_isa.register_relocation
@@ -360,8 +360,8 @@ class Imm18Relocation(Relocation):
     def calc(self, sym_value, reloc_value):
         offset = sym_value - reloc_value - 4
         assert offset in range(-131068, 131075), str(offset)
-        # TODO: this wrap_negative is somewhat weird
-        return wrap_negative(offset, 18)
+        # TODO: this wrap_signed is somewhat weird
+        return wrap_signed(offset, 18)
 
 
 @core_isa.register_relocation
@@ -376,8 +376,8 @@ class Ri16Relocation(Relocation):
         offset = sym_value - ((reloc_value + 3) & 0xFFFFFFFC)
         offset = offset >> 2
         # assert offset in range(-60000, 2095), str(offset)
-        # TODO: this wrap_negative is somewhat weird
-        return wrap_negative(offset, 16)
+        # TODO: this wrap_signed is somewhat weird
+        return wrap_signed(offset, 16)
 
 
 @core_isa.register_relocation
@@ -394,8 +394,8 @@ class Call0Relocation(Relocation):
         r = (reloc_value & 0xFFFFFFFC) >> 2
         offset = s - (r + 1)
         # assert offset in range(-524284, 524288), str(offset)
-        # TODO: this wrap_negative is somewhat weird
-        return wrap_negative(offset, 18)
+        # TODO: this wrap_signed is somewhat weird
+        return wrap_signed(offset, 18)
 
 
 class Bany(XtensaCoreInstruction):
